@@ -99,26 +99,26 @@ var s string = "abc"
 var b bool = true
 var xs []int = []int{1, 2}
 var ss []string = []string{"a"}
-func fi() int {
+func qi() int {
 \treturn 1
 }
-func fs() string {
+func qs() string {
 \treturn "x"
 }
-func fxs() []int {
+func qxs() []int {
 \treturn []int{4}
 }
-func fss() []string {
+func qss() []string {
 \treturn []string{"q"}
 }
-func f2() (int, string) {
+func q2() (int, string) {
 \treturn 1, "y"
 }
-func fv() {
+func qv() {
 \tprint(1)
 }
 """
-ZOO = ["i", "s", "b", "xs", "ss", "fi()", "fs()", "fxs()", "fss()", "f2()", "fv()", "1", '"l"', "true", "[]int{7}", "[]string{}",
+ZOO = ["i", "s", "b", "xs", "ss", "qi()", "qs()", "qxs()", "qss()", "q2()", "qv()", "1", '"l"', "true", "[]int{7}", "[]string{}",
        "xs[0]", "s[0]", "s[0:1]", "len(xs)", "(i)", "i + 1", "@ls()", "nil", "undefined_name"]
 
 
@@ -131,7 +131,7 @@ def builtin_near_misses(rng, limit):
                   "panic(%s)" % a, "for _, v := range %s {\n\tprint(v)\n}" % a, "x := %s[0]" % a, "x := %s[0:1]" % a, "x := s[%s]" % a,
                   "x := s[%s:%s]" % (a, a), "x := xs[%s]" % a, "xs[%s] = 1" % a, "xs[0] = %s" % a, "%s" % a, "x := %s" % a, "x, y := %s" % a,
                   "i = %s" % a, "i, s = %s" % a, "i += %s" % a, "if %s {\n\tprint(1)\n}" % a, "switch %s {\ncase 1:\n\tprint(1)\n}" % a,
-                  "switch i {\ncase %s:\n\tprint(1)\n}" % a, "for %s {\n\tbreak\n}" % a, "x := !%s" % a, "x := fi(%s)" % a, "x := @ls(%s)" % a,
+                  "switch i {\ncase %s:\n\tprint(1)\n}" % a, "for %s {\n\tbreak\n}" % a, "x := !%s" % a, "x := qi(%s)" % a, "x := @ls(%s)" % a,
                   "x := []int{%s}" % a, "x := []string{%s}" % a, "func g() int {\n\treturn %s\n}" % a, "func g() (int, string) {\n\treturn %s\n}" % a,
                   "%s++" % a, "%s = 1" % a, "%s := 1" % a, "x := %s | @cat()" % a, "x := copy(%s, xs)" % a, "x := copy(xs, %s)" % a, "copy(%s, %s)" % (a, a)]
         for c in ZOO:
@@ -163,9 +163,24 @@ def run(res, b, tier, seed):
         cases.append(pipeline.Case("k%d" % n, files, main=main, meta=dict(kind=kind)))
         n += 1
 
+    # every keyword / opener as the very last token of the file (no final newline), alone and after a valid prefix
+    enders = ["import", 'import "strings"', 'import s "strings"', "import (", 'import (\n\t"strings"', "var", "var x", "var x int", "var x =", "func", "func f",
+              "func f(", "func f()", "func f() {", "return", "if", "if true", "if true {", "else", "switch", "switch 1 {", "switch 1 {\ncase", "switch 1 {\ncase 1:",
+              "for", "for i := 0;", "for i := 0; i < 1;", "for true {", "for i, v := range", "break", "continue", "len(", "print(", "print(1", "input(", "copy(",
+              "itoa(", "exists(", "read(", "write(", 'write("a",', "panic(", "x :=", "x := 1 +", "x := []int{", "x := []int{1,", "x := s[", "x := s[1:", "@ls(",
+              '@ls("a") |', "x, y :=", "x++", "x +=", "x.", "strings.", "!", "(", "[", "{", "}", ")", "]", ",", ":", ";", "nil", "true &&"]
+    for e in enders:
+        add("at-eof", {"a.tsh": e.encode()})
+        add("at-eof", {"a.tsh": ("s := \"ab\"\nx := 1\n" + e).encode()})
+        add("at-eof", {"a.tsh": ("func g() {\n\t" + e).encode()})
     for sd in sds:
         toks = tokens_of(sd)
         add("seed", {"a.tsh": sd.encode()})
+        # truncations at token boundaries, without a final newline
+        cuts = list(range(1, len(toks)))
+        rng.shuffle(cuts)
+        for cpos in cuts[:(6 if quick else 60)]:
+            add("truncated", {"a.tsh": render(toks[:cpos]).rstrip("\n").encode()})
         for e in edits(rng, toks, 25 if quick else 200, 8 if quick else 80):
             add("edit", {"a.tsh": render(e).encode()})
     for _ in range(600 if quick else 8000):
